@@ -102,7 +102,35 @@ func c13Run(t *testing.T, sc Scenario, res *Result) {
 	}
 	for i := 0; i < sc.N; i++ {
 		var in []byte
-		switch r.intn(6) {
+		switch r.intn(7) {
+		case 6:
+			// inputs that are TEXT: a fuzzing corpus of a test that also keeps rapid fail files, a corpus file header,
+			// hex numbers ... they are bytes like any others (little-endian words), whatever they look like
+			ws := pick(r, recs)
+			var sb strings.Builder
+			switch r.intn(5) {
+			case 0, 1: // the text of a well-formed fail file of this version holding a recording of this very property
+				if r.chance(1, 2) {
+					sb.WriteString("# 2026/10/01 12:00:00.000000 [rapid] draw x: 1\n")
+				}
+				fmt.Fprintf(&sb, "%s#%d", rapidVersion(), r.intn(1000))
+				for _, w := range ws {
+					fmt.Fprintf(&sb, "\n0x%x", w)
+				}
+				if r.chance(1, 3) {
+					sb.WriteString("\n")
+				}
+			case 2:
+				sb.WriteString("go test fuzz v1\n[]byte(\"abc\")\n")
+			case 3:
+				for _, w := range ws {
+					fmt.Fprintf(&sb, "0x%x\n", w)
+				}
+			default:
+				fmt.Fprintf(&sb, "{\"seed\": %d, \"words\": [1, 2, 3]}", r.intn(1000))
+			}
+			in = []byte(sb.String())
+			res.inc("text_inputs")
 		case 0:
 			in = hostileBytes(r, 40)
 		case 1:
